@@ -30,6 +30,20 @@ they are called, iterated collections decomposed into their elements), not on on
                        trait-impl          DependencyNode::dependencies / id return those two fields
                        nodes-total         every directory of find_buildpack_dirs whose kind is LibCnbRs | Composite
                                            becomes a node handed to create_dependency_graph; node errors propagate
+Deepening round (what carries the data around R1–R6):
+  R1 totality        every-node-added: add_node runs for every element of `nodes`; every-dependency: the edge is added for
+                     every node index of the graph and every element of that node's dependency list — nested loops, closures
+                     and a two-phase "collect pairs, then add" alike (C13_helpers.total_iterations: no truncating / filtering
+                     stage, no per-element decision, no `continue` / `break` / early success around the call)
+  R5 graph           the graph handed to get_dependencies is build_libcnb_buildpacks_dependency_graph(<cargo workspace root>)
+  R6 node-path       the node's `path` is the buildpack directory itself
+  R6 sources         discovery/* (find_buildpack_dirs, workspace root), kind/* (decision table of determine_buildpack_kind),
+                     dependency-id (case table of buildpack_id_from_libcnb_dependency) — see graph_sources()
+  R7 consumption     per caller of get_dependencies, on the caller's effects: package_buildpack runs for every element of
+                     the order (every-node), on that element's own `path` (node-dir), into a directory that is a function of
+                     that element's id (destination); the id -> directory map it receives is the one in which every packaged
+                     element's id is recorded with that very directory, and nothing else changes it (dependency-map); a failed
+                     packaging step fails the caller (package-result)
 Not decided: topological correctness on all DAGs (follows from R1–R3 given petgraph's documented post-order
 semantics); behaviour on cyclic input.
 """
@@ -55,8 +69,10 @@ def classify(name):
     if not name:
         return None
     last = name.split('::')[-1]
-    if 'petgraph::' in name and last == 'add_edge':
-        return 'ADD_EDGE'
+    if 'petgraph::' in name and last in ('add_edge', 'update_edge'):
+        return 'ADD_EDGE'      # (update_edge = add_edge unless the edge exists already: the same relation)
+    if 'petgraph::' in name and last == 'add_node':
+        return 'ADD_NODE'
     if 'petgraph::visit::' in name:
         if last in ('empty', 'new'):
             return 'TRAV_NEW'
@@ -192,10 +208,65 @@ def missing_items(rep, prog, sl, S, subject, variant, ok_msg, bad_msg, where):
         rep.check(ok and bool(conv), 'R4', '%s#%d' % (subject, i), e.where(), ok_msg, bad_msg + ': %s' % why)
 
 
+def construction_total(rep, prog, sl, SC, cg, edges, w):
+    """R1 (totality): every element of `nodes` becomes a node of the graph, and the edge is added for every node of the graph
+    and every element of that node's dependency list — whether written as nested `for` loops, for_each closures or helpers"""
+    e = edges[0]
+    g = peel(e.args[0]) if e.args else ('unknown',)
+    vd, why, its = H.total_iterations(SC.E, e)
+    if vd == 'ok' and len(its) == 1 and its[0].base is not None and peel(its[0].base)[0] == 'call' and peel(its[0].base)[1] in H.VEC_NEW and site_of(peel(its[0].base)):
+        # two phases: the (source, target) pairs are first stored in a local Vec that is only ever pushed to, then the
+        # edges are added for every stored pair — the totality is the one of the push
+        vsite = site_of(peel(its[0].base))
+        app, _, other = H.vec_uses(prog, sl, cg, vsite)
+        pushes = [x for x in SC.of('PUSH') if any(SC.site(x.call) == SC.site(c) for c, _, k in app if k == 'push') and x.args and site_of(peel(x.args[0])) == vsite]
+        if other or len(app) != 1 or app[0][2] != 'push' or len(pushes) != 1:
+            vd, why = 'unproven', 'the edges are added from a stored list that is not filled by exactly one push'
+        else:
+            vd, why, its = H.total_iterations(SC.E, pushes[0])
+    if vd == 'ok':
+        bases = [core(it.base) if it.base is not None else ('unknown',) for it in its]
+        over_nodes = [b for b in bases if is_call(b, '::node_indices') and b[2] and canon(peel(b[2][0])) == canon(g)]
+        over_deps = [b for b in bases if any(x[0] == 'call' and x[1] == DN + 'dependencies' for x in walk(b))]
+        if len(its) != 2 or len(over_nodes) != 1 or len(over_deps) != 1:
+            vd, why = 'unproven', 'the edge is not added inside exactly "for every node index of the graph, for every dependency of that node": %s' % ' / '.join(vstr(b)[:70] for b in bases)
+    if vd == 'violated':
+        rep.violated('R1', 'every-dependency', e.where(), 'not every dependency of every node becomes an edge: ' + why)
+    elif vd != 'ok':
+        rep.unproven('R1', 'every-dependency', e.where(), 'cannot show that every dependency of every node becomes an edge: ' + why)
+    else:
+        rep.holds('R1', 'every-dependency', e.where(), 'an edge is added for every node of the graph and every element of its dependency list')
+    adds = SC.of('ADD_NODE')
+    if len(SC.sites('ADD_NODE')) != 1 or not adds or not SC.all_reached('ADD_NODE'):
+        rep.unproven('R1', 'every-node-added', w(cg), '%d add_node call sites' % len(SC.sites('ADD_NODE')))
+        return
+    probs = []
+    for a in adds:
+        vd, why, its = H.total_iterations(SC.E, a)
+        if vd != 'ok':
+            probs.append((vd if vd == 'violated' else 'unproven', why))
+            continue
+        it = its[0]
+        base = peel(it.base) if it.base is not None else ('unknown',)
+        if len(its) != 1 or base[:3] != ('param', cg.path, 0):
+            probs.append(('unproven', 'add_node does not run once per element of `nodes`: ' + vstr(base)[:100]))
+        elif len(a.args) < 2 or it.elem is None or canon(peel(a.args[1])) != canon(peel(it.elem)):
+            probs.append(('unproven', 'the node added is not the element of `nodes`: ' + vstr(a.args[1] if len(a.args) > 1 else ('unknown',))[:100]))
+        elif canon(peel(a.args[0])) != canon(g):
+            probs.append(('violated', 'nodes are added to another graph than the one the edges are added to'))
+    bad = [t for s_, t in probs if s_ == 'violated']
+    if bad:
+        rep.violated('R1', 'every-node-added', adds[0].where(), 'not every given node becomes a node of the graph: ' + '; '.join(bad))
+    elif probs:
+        rep.unproven('R1', 'every-node-added', adds[0].where(), '; '.join(t for _, t in probs))
+    else:
+        rep.holds('R1', 'every-node-added', adds[0].where(), 'every element of `nodes` is added to the graph')
+
+
 def run(ctx, rep):
     prog, sl = ctx.prog, ctx.slicer
     for r, d in (('R1', 'edge orientation dependent -> dependency'), ('R2', 'post-order DFS, emitted in visit order, not reversed'),
-                 ('R3', 'one traversal state shared across roots'), ('R4', 'unknown dependency / root is an error'), ('R5', 'root selection and consumption order at the call sites')):
+                 ('R3', 'one traversal state shared across roots'), ('R4', 'unknown dependency / root is an error'), ('R5', 'root selection, graph and consumption order at the call sites')):
         rep.rule(r, d)
     rep.not_decided = ['topological correctness on all DAGs (delegated to petgraph\'s DfsPostOrder)', 'behaviour on cycles']
     cg, gd = prog.fn(CG), prog.fn(GD)
@@ -240,6 +311,7 @@ def run(ctx, rep):
                       'a dependency id that is not in the graph is not turned into MissingDependency + `?`', w(cg))
         dropping = SC.named(DROPPING)
         rep.check(not dropping, 'R4', 'no-filter', w(cg), 'no filtering adapter in graph construction', 'graph construction uses %s' % dropping)
+        construction_total(rep, prog, sl, SC, cg, edges, w)
     # ---- R2 / R3 ---------------------------------------------------------------------------------------
     trav = SG.of('TRAV_NEW')
     tsites, nsites, msites = SG.sites('TRAV_NEW'), SG.sites('TRAV_NEXT'), SG.sites('TRAV_MOVE')
@@ -342,7 +414,138 @@ def run(ctx, rep):
                     if any(y[0] == 'call' and y[1] == GD for y in walk(a0)):
                         bad.append(x.name)
         rep.check(not bad, 'R5', subj + '/consumption', c.where(), 'build order consumed front to back', 'build order is reordered before use: %s' % bad)
+        # the graph the order is computed on is the one of the whole cargo workspace
+        gv = core(graph)
+        root = core(gv[2][0]) if gv[0] == 'call' and gv[1] == BG and gv[2] else ('unknown',)
+        rep.check(root[0] == 'call' and root[1] == WS_ROOT, 'R5', subj + '/graph', c.where(), 'graph = build_libcnb_buildpacks_dependency_graph(<cargo workspace root>)',
+                  'the dependency graph is not built from the cargo workspace root (buildpacks elsewhere in the workspace are unknown to it): ' + vstr(gv)[:160])
+        consumption(rep, prog, sl, f, subj, c)
     rule6(ctx, rep)
+    graph_sources(ctx, rep)
+
+
+PKG = 'libcnb_package::package::package_buildpack'
+MAP_INSERT = 'std::collections::BTreeMap::<K, V, A>::insert'
+WS_ROOT = 'libcnb_package::find_cargo_workspace_root_dir'
+
+
+def consumption(rep, prog, sl, f, subj, gd_call):
+    """R7: what the caller does with the order.  Stated on the effects of the caller with the packaging call and the
+    id -> directory map insert as vocabulary (they may sit in the loop, in a helper, in a for_each closure):
+      every-node      package_buildpack runs for every element of get_dependencies(..), under no per-element condition
+      node-dir        it packages that element's own directory (`path`)
+      destination     into a directory that is a function of that element's own id
+      dependency-map  the id -> directory map it is handed is the one in which, for every element, that element's id is
+                      recorded with the very directory it was packaged into; nothing else changes that map
+      package-result  its failure is carried out of the caller"""
+    from . import C15_helpers as H15
+    rep.rule('R7', 'every buildpack of the build order is packaged from its own directory into its own output directory, which later composites are handed')
+    sl = H.subtype_slicer(sl)
+    E = Effects(prog, sl, vocab={PKG: ('PACKAGE', 4), MAP_INSERT: ('RECORD', 2)})
+    seen, pk, recs = set(), [], []
+    for e in H15.expand(E, f, 'may'):
+        if e.call is None or e.kind not in ('PACKAGE', 'RECORD') or e.call.name not in (PKG, MAP_INSERT):
+            continue
+        k = (e.kind, e.call.fn.path, e.call.bb, tuple((l.call.fn.path, l.call.bb) for l in e.chain))
+        if k not in seen:
+            seen.add(k)
+            (pk if e.kind == 'PACKAGE' else recs).append(e)
+    if len(pk) != 1 or len(pk[0].args or ()) < 6:
+        rep.unproven('R7', subj + '/every-node', gd_call.where(), '%d packaging calls reached from %s' % (len(pk), f.path))
+        return
+    p = pk[0]
+    vd, why, its = H.total_iterations(E, p)
+    it = its[0] if len(its) == 1 else None
+    if vd == 'ok' and it is None:
+        vd, why = 'unproven', 'nested iterations'
+    over_order = it is not None and it.base is not None and any(x[0] == 'call' and x[1] == GD for x in walk(it.base))
+    if vd == 'ok' and not over_order:
+        vd, why = 'violated', 'the packaging loop ranges over %s, not over the result of get_dependencies' % vstr(it.base if it is not None and it.base is not None else ('unknown',))[:100]
+    if vd in ('unproven', 'none'):
+        rep.unproven('R7', subj + '/every-node', p.where(), 'cannot show that every buildpack of the build order is packaged: ' + (why or vd))
+    else:
+        rep.check(vd == 'ok', 'R7', subj + '/every-node', p.where(), 'package_buildpack runs for every element of the build order',
+                  'not every buildpack of the build order is packaged: ' + why)
+    node = H.node_element(it.elem, GD) if (it is not None and it.elem is not None) else None
+    if node is None:
+        for k in ('node-dir', 'destination', 'dependency-map'):
+            rep.unproven('R7', '%s/%s' % (subj, k), p.where(), 'the element of the build order the packaging call works on is not known')
+    else:
+        N = H.sym('node')
+        rel = lambda v: H.in_terms_of(sl, v, node, N)
+        src = peel(rel(p.args[0]))
+        n, k = H.occurrences(src, N, 'path')
+        if src == ('field', N, 'path'):
+            rep.holds('R7', subj + '/node-dir', p.where(), 'packages the directory of the element itself')
+        elif n == 0 and k == 0:
+            rep.violated('R7', subj + '/node-dir', p.where(), 'the directory packaged is not the one of the current element of the build order: ' + vstr(src)[:120])
+        else:
+            rep.unproven('R7', subj + '/node-dir', p.where(), 'the directory packaged is not plainly the `path` of the current element: ' + vstr(src)[:120])
+        dest = rel(p.args[4])
+        n, k = H.occurrences(dest, N, 'buildpack_id')
+        if k >= 1 and n == k:
+            rep.holds('R7', subj + '/destination', p.where(), 'output directory = f(id of the element itself)')
+        elif k == 0 and n == 0:
+            rep.violated('R7', subj + '/destination', p.where(), 'the output directory does not depend on the element of the build order that is packaged: every buildpack is written into the same directory (%s)' % vstr(dest)[:120])
+        else:
+            rep.unproven('R7', subj + '/destination', p.where(), 'the output directory is not a function of the element\'s id alone: ' + vstr(dest)[:120])
+        # the map
+        mp = peel(p.args[5])
+        psite = (p.call.fn.path, p.call.bb)
+
+        def after_packaging(cd, subj):
+            # "this element's packaging step succeeded" (its failure is carried out: package-result)
+            return cd.kind == 'variant' and (cd.enum or '').startswith(('std::result::Result', 'std::ops::ControlFlow')) and \
+                set(cd.outcome) <= {'Ok', 'Continue'} and site_of(core(subj)) == psite
+        mine = [r for r in recs if len(r.args or ()) >= 3 and H15.same_object(sl, peel(r.args[0]), mp)]
+        probs = []
+        is_map = lambda v: H15.same_object(sl, v, mp)
+        filled = H.map_mutations(prog, sl, f, is_map, []) if not mine else []
+        if filled:
+            probs.append(('unproven', 'the id -> directory map handed to package_buildpack is filled by %s, not by a plain insert' % sorted({(x.name or '?').split('::')[-1] for x in filled})))
+        elif not mine:
+            probs.append(('violated', 'the id -> directory map handed to package_buildpack (%s) is not a map the packaged directories are recorded in: composites cannot be pointed at their packaged dependencies' % vstr(mp)[:60]))
+        for r in mine:
+            rv, rwhy, rits = H.total_iterations(E, r, after_packaging)
+            rit = rits[0] if len(rits) == 1 else None
+            rnode = H.node_element(rit.elem, GD) if (rit is not None and rit.elem is not None) else None
+            if rv == 'violated':
+                probs.append(('violated', 'not every packaged buildpack is recorded: ' + rwhy))
+            elif rv != 'ok' or rnode is None or canon(rnode) != canon(node):
+                probs.append(('unproven', 'cannot show that every packaged buildpack is recorded: ' + (rwhy or 'another iteration')))
+            else:
+                key, val = peel(rel(r.args[1])), rel(r.args[2])
+                if key != ('field', N, 'buildpack_id'):
+                    probs.append(('violated' if H.occurrences(key, N, 'buildpack_id') == (0, 0) else 'unproven', 'the key recorded is not the id of the packaged element: ' + vstr(key)[:100]))
+                if canon(peel(val)) != canon(peel(dest)):
+                    probs.append(('violated', 'the directory recorded for an id (%s) is not the directory that buildpack was packaged into' % vstr(val)[:100]))
+        for g_ in {r.call.fn.path: r.call.fn for r in mine}.values() if mine else ():
+            top = g_
+            while top.kind == 'Closure' and top.parent in prog.fns:
+                top = prog.fns[top.parent]
+            for x in H.map_mutations(prog, sl, top, is_map, [r.call for r in mine]):
+                probs.append(('violated', 'the map is also changed by %s at %s' % ((x.name or '?').split('::')[-1], x.where())))
+        conclude7(rep, subj + '/dependency-map', p.where(), probs, 'the map handed to package_buildpack records id -> output directory of every buildpack packaged so far')
+    ok, why = H.flows_out(prog, p)
+    ok2, why2, at = H.success_implies(prog, p.call, sl, stop=(f.path,)) if ok else (False, why, None)
+    bad_msg = 'the failure of package_buildpack is not carried out of the caller (later buildpacks are packaged on top of a missing dependency): %s'
+    if ok and ok2:
+        rep.holds('R7', subj + '/package-result', p.where(), 'a failed packaging step fails the caller')
+    elif not ok or (at is not None and verdict(result_fates(prog, at.fn, at)) == 'discarded'):
+        rep.violated('R7', subj + '/package-result', p.where(), bad_msg % (why if not ok else why2))
+    else:
+        rep.unproven('R7', subj + '/package-result', p.where(), 'cannot show that a failed packaging step fails the caller: %s' % why2)
+
+
+def conclude7(rep, subject, where, problems, ok_msg):
+    bad = [t for s, t in problems if s == 'violated']
+    unp = [t for s, t in problems if s != 'violated']
+    if bad:
+        rep.violated('R7', subject, where, '; '.join(bad)[:600])
+    elif unp:
+        rep.unproven('R7', subject, where, '; '.join(unp)[:600])
+    else:
+        rep.holds('R7', subject, where, ok_msg)
 
 
 def node_found_by(sl, v, graph):
@@ -425,6 +628,7 @@ BG = 'libcnb_package::buildpack_dependency_graph::build_libcnb_buildpacks_depend
 JOIN = 'std::path::Path::join'
 IS_FILE = 'std::path::Path::is_file'
 GRAPH_KINDS = frozenset(('LibCnbRs', 'Composite'))
+PATH_SAME = ('::from', '::to_path_buf', '::to_owned', '::into', '::clone', '::as_ref', '::as_path', '::borrow', '::deref', '::into_path_buf')
 SWALLOWING = ('::ok', '::unwrap_or', '::unwrap_or_default', '::unwrap_or_else', '::is_ok', '::or', '::err', '::flatten', '::map_or', '::is_ok_and')
 
 
@@ -633,6 +837,19 @@ def rule6(ctx, rep):
         if not alts:
             probs.append(('unproven', 'no value for `buildpack_id`'))
         conclude(rep, 'node-id' + sfx, w(g), probs, 'buildpack_id = id read from <dir>/buildpack.toml')
+        # path: the directory the node was built for (it is what gets packaged, and what the current directory is compared with)
+        if 'path' in ops:
+            probs = []
+            for a in P.of_operand(g, ops['path']):
+                v = peel(H.reduce(sl, a.value, keep))
+                for _ in range(8):
+                    if v[0] == 'call' and len(v[2]) == 1 and v[1].endswith(PATH_SAME):
+                        v = peel(v[2][0])
+                if v[:3] == dirv[:3]:
+                    continue
+                off = v[0] == 'call' and v[1] == JOIN or not any(y[:3] == dirv[:3] for y in walk(v))
+                probs.append(('violated' if off else 'unproven', '`path` is not the buildpack directory the node was built for: ' + vstr(v)[:160]))
+            conclude(rep, 'node-path' + sfx, w(g), probs, 'path = the buildpack directory')
         # dependencies
         alts = P.of_operand(g, ops['dependencies'])
         nprobs, dprobs, built = [], [], 0
@@ -738,6 +955,177 @@ def rule6(ctx, rep):
             probs.append(('unproven', 'no value for the node list'))
         untouched(prog, sl, [bg, e.call.fn] + list(P.frames.values()), NODE, sites, pushes + [e.call], 'node list', probs)
         conclude(rep, 'nodes-total' + sfx, e.where(), probs, 'every LibCnbRs / Composite directory of find_buildpack_dirs becomes a node of the graph; node errors propagate')
+
+
+class SubReport:
+    """reports of an obligation stated by another module, under this property's rule / subject names"""
+
+    def __init__(self, rep, rule, prefix):
+        self._rep, self._rule, self._prefix = rep, rule, prefix
+
+    def rule(self, rule, doc):
+        pass
+
+    def floor(self, rule, name, measured):
+        pass
+
+    def holds(self, rule, subject, where, msg, detail=None, nontrivial=True):
+        self._rep.holds(self._rule, self._prefix + subject, where, msg, detail, nontrivial)
+
+    def violated(self, rule, subject, where, msg, detail=None):
+        self._rep.violated(self._rule, self._prefix + subject, where, msg, detail)
+
+    def unproven(self, rule, subject, where, msg, detail=None):
+        self._rep.unproven(self._rule, self._prefix + subject, where, msg, detail)
+
+    def check(self, cond, rule, subject, where, ok_msg, bad_msg, detail=None):
+        (self.holds if cond else self.violated)(rule, subject, where, ok_msg if cond else bad_msg, detail)
+        return cond
+
+    def __getattr__(self, name):
+        return getattr(self._rep, name)
+
+
+def graph_sources(ctx, rep):
+    """R6 (continued): the three functions the graph's input is read through — they are opaque anchors in the Build normal
+    forms above, so what they return is decided here:
+      discovery/walk            find_buildpack_dirs = every directory with a buildpack.toml found by an ignore-file honouring
+                                walk below the start directory (no depth limit, no truncation, no further per-entry test);
+      discovery/workspace-root  the start directory is cargo's workspace root for the invocation directory
+                                — the obligations C15 states on the same functions (C15_helpers.rules_discovery),
+                                reported here under C13 keys
+      kind/*                    determine_buildpack_kind(<dir>), for the descriptor read from <dir>/buildpack.toml:
+                                Composite <=> composite descriptor; LibCnbRs <=> component descriptor and <dir>/Cargo.toml
+                                exists; Other <=> component descriptor and no Cargo.toml (nothing else decides; whether the
+                                descriptor could be read at all is the `Option`)
+      dependency-id             buildpack_id_from_libcnb_dependency(d) = Ok(Some(parse(path of d.uri)?)) exactly when the
+                                scheme is present and equals "libcnb", Ok(None) otherwise; a parse failure is Err"""
+    prog, sl = ctx.prog, ctx.slicer
+    from . import C15_helpers as H15
+    for fn_, prefix in ((H15.rules_discovery, 'discovery/'), (buildpack_kind, 'kind/')):
+        try:
+            fn_(ctx, SubReport(rep, 'R6', prefix))
+        except Exception as ex:     # (fail closed)
+            rep.unproven('R6', prefix + 'analysis', '-', 'the analysis did not complete: %r' % (ex,))
+    try:
+        dependency_id(ctx, rep)
+    except Exception as ex:
+        rep.unproven('R6', 'dependency-id', '-', 'the analysis did not complete: %r' % (ex,))
+
+
+STAT = ('std::path::Path::is_file', 'std::path::Path::exists', 'std::path::Path::try_exists')
+
+
+def all_closures(prog, f):
+    out = []
+    for c in prog.closures_of(f):
+        out.append(c)
+        out.extend(all_closures(prog, c))
+    return out
+
+
+def buildpack_kind(ctx, rep):
+    """decision table of determine_buildpack_kind from the branch decisions that dominate every construction of a BuildpackKind
+    value (match arms, guards, if/else, closures of Option::map alike)"""
+    from .lib.guards import conditions_ctx
+    prog, sl = ctx.prog, ctx.slicer
+    kf = prog.fn(KIND)
+    rep.analysed(kf)
+    where = '%s:%d' % (kf.file, kf.line)
+    dirv = ('param', kf.path, 0, kf.local_name(1))
+    fns = [kf] + all_closures(prog, kf)
+    reads = [c for g in fns for c in g.calls if c.name == READ and c.args and is_path_in(sl.operand(g, c.args[0]), dirv, 'buildpack.toml')]
+    table = {}
+    for g in fns:
+        for bi, b in enumerate(g.blocks):
+            for st in b['s']:
+                if not (st[0] == '=' and st[2]['r'] == 'agg' and str(st[2].get('adt', '')).endswith('BuildpackKind')):
+                    continue
+                desc, cargo, extra = None, [], []
+                for cd in conditions_ctx(prog, g, bi, sl):
+                    if cd.kind == 'variant' and (cd.enum or '').startswith(('std::result::Result', 'std::option::Option', 'std::ops::ControlFlow')):
+                        continue        # (the descriptor could be read)
+                    if cd.kind == 'variant' and (cd.enum or '').endswith('BuildpackDescriptor'):
+                        desc = set(cd.outcome) if desc is None else (desc & set(cd.outcome))
+                        continue
+                    hit = False
+                    if cd.kind == 'bool':
+                        for v, oc in cd.views():
+                            v = peel(v)
+                            while v[0] == 'un' and v[1] == 'Not':
+                                v, oc = peel(v[2]), (not oc) if isinstance(oc, bool) else oc
+                            if v[0] == 'call' and v[1] in STAT and v[2] and is_path_in(v[2][0], dirv, 'Cargo.toml') and isinstance(oc, bool):
+                                cargo.append(oc)
+                                hit = True
+                                break
+                    if not hit:
+                        extra.append(vstr(cd.subject if cd.subject is not None else cd.value)[:80])
+                table.setdefault(st[2].get('variant'), []).append((desc, cargo, extra))
+    show_ = lambda rows: '; '.join('descriptor=%s Cargo.toml=%s other=%s' % (sorted(d) if d else 'any', c, x) for d, c, x in rows) or 'never constructed'
+    want = {'Composite': ({'Composite'}, []), 'LibCnbRs': ({'Component'}, [True]), 'Other': ({'Component'}, [False])}
+    text = {'Composite': 'Composite <=> composite descriptor', 'LibCnbRs': 'LibCnbRs <=> component descriptor and <dir>/Cargo.toml exists',
+            'Other': 'Other <=> component descriptor without <dir>/Cargo.toml'}
+    for k, (d, c) in want.items():
+        rows = table.get(k, [])
+        ok = bool(rows) and bool(reads) and all(rd == d and rc == c and not rx for rd, rc, rx in rows)
+        rep.check(ok, 'R6', k.lower(), where, text[k], 'determine_buildpack_kind yields %s under other conditions than "%s" (a buildpack directory of the workspace is then missing from, or wrongly part of, the graph): %s'
+                  % (k, text[k], show_(rows) if reads else 'the descriptor is not read from <dir>/buildpack.toml'))
+    for k in table:
+        if k not in want:
+            rep.unproven('R6', 'kind-' + str(k), where, 'a buildpack kind the graph rules do not know')
+
+
+def dependency_id(ctx, rep):
+    """case analysis of buildpack_id_from_libcnb_dependency (C14_helpers.Cases: combinator chains, `?`, early returns and
+    match arms give the same (conditions, result shape) table)"""
+    prog, sl = ctx.prog, ctx.slicer
+    from .C14_helpers import Cases, POS, NEG, shape_sig, mentions as sh_mentions
+    from .C14 import atoms_values, is_param, show
+    from .lib.paths import strip
+    idf = prog.fn(F_DEP)
+    rep.analysed(idf)
+    ics = Cases(prog, sl, idf).fn_cases(idf)
+    is_uri = lambda x: strip(x)[0] == 'field' and strip(x)[2] == 'uri' and is_param(strip(x)[1], idf, 0)
+    schemes = {canon(x) for x in atoms_values(ics) if x[0] == 'call' and x[1].endswith('::scheme') and len(x[2]) == 1 and is_uri(x[2][0])}
+    parses = {canon(x) for x in atoms_values(ics) if x[0] == 'call' and x[1].endswith('::parse') and len(x[2]) == 1 and strip(x[2][0])[0] == 'call' and
+              strip(x[2][0])[1].endswith('::path') and is_uri(strip(x[2][0])[2][0])}
+    sch = next(iter(schemes)) if len(schemes) == 1 else None
+    prs = next(iter(parses)) if len(parses) == 1 else None
+
+    def lt(a):
+        if a == ('is', sch, POS):
+            return 1
+        if a[0] == 'bool' and a[2] is True and a[1][0] == 'eq':
+            x, y = a[1][1], a[1][2]
+            if x == ('const', 'libcnb'):
+                x, y = y, x
+            if y == ('const', 'libcnb') and x[0] == 'call' and x[1].endswith('::as_str') and len(x[2]) == 1 and x[2][0] == ('unwrap', sch):
+                return 2
+        return 0
+    is_libcnb = lambda atoms: {lt(a) for a in atoms} >= {1, 2}
+    not_libcnb = lambda atoms: any(a == ('is', sch, NEG) or (a[0] == 'bool' and lt((a[0], a[1], True)) == 2 and a[2] is False) or
+                                   (a[0] == 'nall' and a[1] and all(lt(x) for x in a[1])) for a in atoms)
+    kinds = {'some': [], 'none': [], 'err': [], 'other': []}
+    for atoms, sh in ics:
+        sig = shape_sig(sh)
+        if sig == 'Ok(Some(_))':
+            kinds['some'].append(is_libcnb(atoms) and canon(sh[1][1][1]) == ('unwrap', prs))
+        elif sig == 'Ok(None)':
+            kinds['none'].append(not_libcnb(atoms))
+        elif sh[0] == 'Err':
+            kinds['err'].append(is_libcnb(atoms) and sh_mentions(sh, ('unwrap_err', prs)))
+        else:
+            kinds['other'].append(False)
+    w = '%s:%d' % (idf.file, idf.line)
+    dropped = sch is not None and kinds['none'] and not all(kinds['none'])
+    lost_err = prs is not None and not kinds['err']
+    ok = sch is not None and prs is not None and not kinds['other'] and all(kinds[k] and all(kinds[k]) for k in ('some', 'none', 'err'))
+    if ok:
+        rep.holds('R6', 'dependency-id', w, 'scheme present and == "libcnb" => Ok(Some(path.parse()?)); otherwise Ok(None)')
+    elif dropped or lost_err:
+        rep.violated('R6', 'dependency-id', w, 'a `libcnb:` dependency can come out as Ok(None) (it is then silently left out of the graph) or its invalid id is not an error: ' + show(ics)[:400])
+    else:
+        rep.unproven('R6', 'dependency-id', w, 'the id of a libcnb dependency is not recognised as "scheme == libcnb => Ok(Some(parse(path)?)), else Ok(None)": ' + show(ics)[:400])
 
 
 def peel_refs(v):
